@@ -13,6 +13,7 @@ import Pog.Drv.Conv
 import Pog.Drv.Parser
 import Pog.Drv.Resolve
 import Pog.Drv.Extract
+import Pog.Drv.Dc
 /-
   Line protocol: one JSON request per line on stdin, one JSON reply per line on stdout.
     request  {"f": <function>, "a": [<args>], "u": {<codepoint>: {"w":bool,"d":bool,"l":str,"U":str,"iu":bool}}}
@@ -36,7 +37,8 @@ def dispatchers : List Dispatch := [
   dispatchConv,
   dispatchParser,
   dispatchResolve,
-  dispatchExtract
+  dispatchExtract,
+  dispatchDc
 ]
 
 def dispatch (f : String) (a : Array Json) (u : UInfo) : Except String Json :=
